@@ -37,12 +37,14 @@ type c27Stmt struct {
 type c27Req struct {
 	Tx    bool      `json:"tx"`
 	Stmts []c27Stmt `json:"stmts"`
+	Read  bool      `json:"read,omitempty"` // no write: a read on the pooled read-only connection
+	DDL   string    `json:"ddl,omitempty"`  // the request consists of schema changes to this table
 }
 type c27Input struct {
 	Filter  string   `json:"filter"` // regexp, "" = none
 	IDsOnly bool     `json:"ids_only"`
 	Reqs    []c27Req `json:"reqs"`
-	NoModel bool     `json:"no_model,omitempty"` // schema changes inside the program: outside the model's hypotheses
+	NoModel bool     `json:"no_model,omitempty"`
 }
 
 var c27Schema = []string{
@@ -53,6 +55,7 @@ var c27Schema = []string{
 	"CREATE TABLE big_tbl (a, b, c)",
 }
 var c27Tables = []string{"items", "logs", "aux_tbl", "ledger", "big_tbl"}
+// the columns at the start of every program (schema-change programs alter them)
 var c27Cols = map[string][]string{
 	"items":   {"id", "name", "qty", "price", "data", "note"},
 	"logs":    {"msg", "lvl"},
@@ -71,14 +74,12 @@ type c27Ev struct {
 	Before []any // nil = absent; values: nil, int64, float64, string, []byte
 	After  []any
 	Err    string
-	// observed events only: the JSON values in column order (what the oracle compares)
-	RawBefore []json.RawMessage
-	RawAfter  []json.RawMessage
-	// observed events only: the row images of the event group as the streamer delivered it (before marshalling)
-	ImgOld, ImgNew []any
-	HasOld, HasNew bool
-	JSONKeysBefore []string // keys of the before/after maps in the JSON, sorted
-	JSONKeysAfter  []string
+	Cols   []string // expected events: the table's columns when the statement ran (shadow database)
+	// observed events only
+	PCols            []string // ColumnNames as attached by the streamer
+	ImgOld, ImgNew   []any    // row images of the event group as the streamer delivered it (before marshalling)
+	HasOld, HasNew   bool
+	JBefore, JAfter  map[string]json.RawMessage // the before/after maps of the marshalled event
 }
 
 func c27Tok(v any) string {
@@ -111,6 +112,9 @@ func c27Toks(vs []any) []string {
 }
 
 func (e c27Ev) String() string {
+	if e.PCols != nil || e.HasOld || e.HasNew || e.JBefore != nil || e.JAfter != nil {
+		return fmt.Sprintf("%s %s old=%d new=%d names=%v old-image=%v new-image=%v err=%q", e.Op, e.Table, e.Old, e.New, e.PCols, c27Toks(e.ImgOld), c27Toks(e.ImgNew), e.Err)
+	}
 	return fmt.Sprintf("%s %s old=%d new=%d before=%v after=%v err=%q", e.Op, e.Table, e.Old, e.New, c27Toks(e.Before), c27Toks(e.After), e.Err)
 }
 
@@ -244,54 +248,65 @@ type c27Row struct {
 	vals []any
 }
 
-func c27Snapshot(ctx context.Context, c *sql.Conn, table string) (map[int64]c27Row, error) {
-	rows, err := c.QueryContext(ctx, "SELECT rowid, * FROM "+table)
-	if err != nil {
-		return nil, err
-	}
-	defer rows.Close()
-	n := len(c27Cols[table])
-	out := map[int64]c27Row{}
-	for rows.Next() {
-		dest := make([]any, n+1)
-		ptrs := make([]any, n+1)
-		for i := range dest {
-			ptrs[i] = &dest[i]
-		}
-		if err := rows.Scan(ptrs...); err != nil {
-			return nil, err
-		}
-		id := dest[0].(int64)
-		vals := make([]any, n)
-		for i := 0; i < n; i++ {
-			if b, ok := dest[i+1].([]byte); ok {
-				vals[i] = append([]byte{}, b...)
-			} else {
-				vals[i] = dest[i+1]
-			}
-		}
-		out[id] = c27Row{id: id, vals: vals}
-	}
-	return out, rows.Err()
+type c27TableSnap struct {
+	cols []string
+	rows map[int64]c27Row
 }
 
-func c27SnapAll(ctx context.Context, c *sql.Conn) (map[string]map[int64]c27Row, error) {
-	out := map[string]map[int64]c27Row{}
-	for _, t := range c27Tables {
-		m, err := c27Snapshot(ctx, c, t)
+// c27SnapAll reads every table that exists right now: its columns and its rows
+func c27SnapAll(ctx context.Context, c *sql.Conn) (map[string]*c27TableSnap, error) {
+	out := map[string]*c27TableSnap{}
+	for _, table := range c27Tables {
+		rows, err := c.QueryContext(ctx, "SELECT rowid, * FROM "+table)
+		if err != nil {
+			if strings.Contains(err.Error(), "no such table") {
+				continue
+			}
+			return nil, err
+		}
+		cols, _ := rows.Columns()
+		ts := &c27TableSnap{cols: cols[1:], rows: map[int64]c27Row{}}
+		n := len(ts.cols)
+		for rows.Next() {
+			dest := make([]any, n+1)
+			ptrs := make([]any, n+1)
+			for i := range dest {
+				ptrs[i] = &dest[i]
+			}
+			if err := rows.Scan(ptrs...); err != nil {
+				rows.Close()
+				return nil, err
+			}
+			id := dest[0].(int64)
+			vals := make([]any, n)
+			for i := 0; i < n; i++ {
+				if b, ok := dest[i+1].([]byte); ok {
+					vals[i] = append([]byte{}, b...)
+				} else {
+					vals[i] = dest[i+1]
+				}
+			}
+			ts.rows[id] = c27Row{id: id, vals: vals}
+		}
+		err = rows.Err()
+		rows.Close()
 		if err != nil {
 			return nil, err
 		}
-		out[t] = m
+		out[table] = ts
 	}
 	return out, nil
 }
 
-// the row changes between two snapshots, read as the effect of a statement of the given kind
-func c27Diff(before, after map[string]map[int64]c27Row, kind string) []c27Ev {
+// the row changes between two snapshots, read as the effect of a (non-DDL) statement of the given kind
+func c27Diff(before, after map[string]*c27TableSnap, kind string) []c27Ev {
 	var evs []c27Ev
 	for _, t := range c27Tables {
-		b, a := before[t], after[t]
+		bs, as := before[t], after[t]
+		if bs == nil || as == nil {
+			continue
+		}
+		b, a, cols := bs.rows, as.rows, as.cols
 		var removed, added, changed []int64
 		for id, r := range b {
 			if r2, ok := a[id]; !ok {
@@ -307,22 +322,22 @@ func c27Diff(before, after map[string]map[int64]c27Row, kind string) []c27Ev {
 		}
 		if (kind == "update" || kind == "update-rowid") && len(removed) == 1 && len(added) == 1 {
 			// a single row got a new rowid
-			evs = append(evs, c27Ev{Op: "UPDATE", Table: t, Old: removed[0], New: added[0], Before: b[removed[0]].vals, After: a[added[0]].vals})
+			evs = append(evs, c27Ev{Op: "UPDATE", Table: t, Old: removed[0], New: added[0], Before: b[removed[0]].vals, After: a[added[0]].vals, Cols: cols})
 			removed, added = nil, nil
 		}
 		for _, id := range removed {
-			evs = append(evs, c27Ev{Op: "DELETE", Table: t, Old: id, Before: b[id].vals})
+			evs = append(evs, c27Ev{Op: "DELETE", Table: t, Old: id, Before: b[id].vals, Cols: cols})
 		}
 		for _, id := range changed {
 			if kind == "replace" || kind == "insert" {
-				evs = append(evs, c27Ev{Op: "DELETE", Table: t, Old: id, Before: b[id].vals})
-				evs = append(evs, c27Ev{Op: "INSERT", Table: t, New: id, After: a[id].vals})
+				evs = append(evs, c27Ev{Op: "DELETE", Table: t, Old: id, Before: b[id].vals, Cols: cols})
+				evs = append(evs, c27Ev{Op: "INSERT", Table: t, New: id, After: a[id].vals, Cols: cols})
 			} else {
-				evs = append(evs, c27Ev{Op: "UPDATE", Table: t, Old: id, New: id, Before: b[id].vals, After: a[id].vals})
+				evs = append(evs, c27Ev{Op: "UPDATE", Table: t, Old: id, New: id, Before: b[id].vals, After: a[id].vals, Cols: cols})
 			}
 		}
 		for _, id := range added {
-			evs = append(evs, c27Ev{Op: "INSERT", Table: t, New: id, After: a[id].vals})
+			evs = append(evs, c27Ev{Op: "INSERT", Table: t, New: id, After: a[id].vals, Cols: cols})
 		}
 	}
 	sort.Slice(evs, func(i, j int) bool { return c27SortKey(evs[i]) < c27SortKey(evs[j]) })
@@ -334,6 +349,7 @@ type c27ReqExpect struct {
 	groups     [][][]c27Ev
 	undoneInTx bool // a statement failed inside an explicit transaction that then committed
 	failedAuto bool // an autocommit statement failed, or an explicit transaction was rolled back, with more statements in the request
+	envAfter   map[string][]string // the tables' columns after the request
 }
 type c27Expect struct {
 	reqs         []*c27ReqExpect
@@ -387,7 +403,7 @@ func c27Shadow(in c27Input) (*c27Expect, error) {
 			}
 			pending, failedInThisTx = nil, false
 		}
-		if r.Tx {
+		if r.Tx && !r.Read {
 			if _, err := c.ExecContext(ctx, "BEGIN"); err != nil {
 				return nil, err
 			}
@@ -395,7 +411,13 @@ func c27Shadow(in c27Input) (*c27Expect, error) {
 		}
 		aborted := false
 		for _, s := range r.Stmts {
-			if s.SQL == "" {
+			if s.SQL == "" || r.Read {
+				continue
+			}
+			if s.Kind == "ddl" {
+				if _, xerr := c.ExecContext(ctx, s.SQL); xerr != nil {
+					return nil, fmt.Errorf("generated schema change failed: %s: %v", s.SQL, xerr)
+				}
 				continue
 			}
 			before, err := c27SnapAll(ctx, c)
@@ -455,7 +477,7 @@ func c27Shadow(in c27Input) (*c27Expect, error) {
 				}
 			}
 		}
-		if r.Tx && !aborted {
+		if r.Tx && !r.Read && !aborted {
 			if _, err := c.ExecContext(ctx, "COMMIT"); err != nil {
 				return nil, err
 			}
@@ -463,6 +485,14 @@ func c27Shadow(in c27Input) (*c27Expect, error) {
 		}
 		if inTx && !r.Tx {
 			return nil, fmt.Errorf("generated request leaves a transaction open")
+		}
+		snap, err := c27SnapAll(ctx, c)
+		if err != nil {
+			return nil, err
+		}
+		rx.envAfter = map[string][]string{}
+		for t, ts := range snap {
+			rx.envAfter[t] = ts.cols
 		}
 	}
 	return ex, nil
@@ -496,12 +526,33 @@ func c27Ascii(s string) bool {
 	return true
 }
 
+func c27CoqEnv(env map[string][]string) string {
+	var it []string
+	for _, t := range c27Tables {
+		if cols, ok := env[t]; ok {
+			it = append(it, coqPair(coqStr(t), coqStrList(cols)))
+		}
+	}
+	return coqList(it)
+}
+
+const c27ReadSQL = "SELECT count(*) FROM sqlite_master"
+
 func c27Run(w *vWriter, in c27Input) {
 	var re *regexp.Regexp
 	if in.Filter != "" {
 		re = regexp.MustCompile(in.Filter)
 	}
+	selected := func(table string) bool { return re == nil || re.MatchString(table) }
 	key := fmt.Sprintf("%x", sha1.Sum([]byte(vJSON(in))))
+
+	// ---- oracle first: the shadow database gives, per request, the row changes and the tables' columns
+	ex, err := c27Shadow(in)
+	if err != nil {
+		w.Emit(VCase{Input: in, Key: key, Inconcl: "shadow: " + err.Error()})
+		return
+	}
+
 	A, err := c27Open()
 	if err != nil {
 		w.Emit(VCase{Input: in, Key: key, Inconcl: "open: " + err.Error()})
@@ -520,8 +571,12 @@ func c27Run(w *vWriter, in c27Input) {
 	A.db.RegisterCommitHook(A.st.CommitHook)
 	c27RegisterRollback(A.db, A.st, nil)
 
-	// B: recorder around the streamer's hooks
+	// B: recorder around the streamer's hooks.  The trace also gets the marker "Schema env" at the point from which
+	// A's ColumnNames answers env: the first statement A's pooled read connection steps after a schema change - a read
+	// request, or the column-name lookup of the first commit that has a selected event (whose own answer is still old).
 	var trace []string
+	var pendingEnv map[string][]string // set by a schema change, until the read connection has stepped
+	selectedPending := 0
 	B.db.RegisterPreUpdateHook(func(ev *command.CDCEvent) error {
 		op := "ROther"
 		switch ev.Op {
@@ -535,25 +590,47 @@ func c27Run(w *vWriter, in c27Input) {
 		trace = append(trace, fmt.Sprintf("Pre {| r_op := %s; r_table := %s; r_old := %s; r_new := %s; r_oldv := %s; r_newv := %s |}",
 			op, coqStr(ev.Table), coqZ(ev.OldRowId), coqZ(ev.NewRowId),
 			c27CoqStrs(c27Toks(c27ProtoRow(ev.OldRow))), c27CoqStrs(c27Toks(c27ProtoRow(ev.NewRow)))))
+		if selected(ev.Table) {
+			selectedPending++
+		}
 		return B.st.PreupdateHook(ev)
 	}, nil, false)
 	B.db.RegisterCommitHook(func() bool {
 		trace = append(trace, "Commit")
+		if selectedPending > 0 && pendingEnv != nil {
+			trace = append(trace, "Schema "+c27CoqEnv(pendingEnv))
+			pendingEnv = nil
+		}
+		selectedPending = 0
 		return B.st.CommitHook()
 	})
-	c27RegisterRollback(B.db, B.st, func() { trace = append(trace, "Rollback") })
+	c27RegisterRollback(B.db, B.st, func() { trace = append(trace, "Rollback"); selectedPending = 0 })
 
-	var observed [][][]c27Ev  // per request, per group
-	var obsCoq []string       // per group
-	var obsProblems []string  // JSON-level problems
+	var observed [][][]c27Ev // per request, per group
+	var obsCoq []string      // per group
+	var obsProblems []string // JSON-level problems
+	nDDL, nRead := 0, 0
 	for i, r := range in.Reqs {
-		trace = append(trace, "Reset")
 		observed = append(observed, nil)
-		if err := A.exec(r, uint64(i+10)); err != nil && !r.Tx {
-			_ = err
+		if r.Read {
+			nRead++
+			A.db.QueryStringStmt(c27ReadSQL)
+			B.db.QueryStringStmt(c27ReadSQL)
+			if pendingEnv != nil {
+				trace = append(trace, "Schema "+c27CoqEnv(pendingEnv))
+				pendingEnv = nil
+			}
+			continue
 		}
+		trace = append(trace, "Reset")
+		selectedPending = 0
+		A.exec(r, uint64(i+10))
 		B.exec(r, uint64(i+10))
 		B.drain()
+		if r.DDL != "" {
+			nDDL++
+			pendingEnv = ex.reqs[i].envAfter
+		}
 		for _, g := range A.drain() {
 			b, err := cdcjson.MarshalToEnvelopeJSON("", "n", false, []*command.CDCIndexedEventGroup{g})
 			if err != nil {
@@ -569,95 +646,60 @@ func c27Run(w *vWriter, in c27Input) {
 			var grp []c27Ev
 			var coq []string
 			for j, je := range msg.Events {
-				e := c27Ev{Op: je.Op, Table: je.Table, Old: je.Old, New: je.New, Err: je.Err}
-				cols := c27Cols[je.Table]
-				// values: decoded with the help of the proto value types; c27JSONIs re-checks them against the oracle's values below
+				e := c27Ev{Op: je.Op, Table: je.Table, Old: je.Old, New: je.New, Err: je.Err, JBefore: je.Before, JAfter: je.After}
 				var pe *command.CDCEvent
 				if j < len(g.Events) {
 					pe = g.Events[j]
 				}
-				conv := func(m map[string]json.RawMessage, prow *command.CDCRow) []any {
+				// for the model: the JSON maps as (name, value) pairs in the order of the streamer's ColumnNames; the
+				// value token is the event's own value if the JSON value stands for it
+				pairs := func(m map[string]json.RawMessage, prow *command.CDCRow) string {
 					if m == nil {
-						return nil
+						return "None"
 					}
-					out := make([]any, 0, len(m))
-					for k, cn := range cols {
-						raw, ok := m[cn]
-						if !ok {
-							out = append(out, "?missing")
-							continue
-						}
-						var hint any
-						if prow != nil && k < len(prow.Values) {
-							hint = c27ProtoVal(prow.Values[k])
-						}
-						if c27JSONIs(raw, hint) {
-							out = append(out, hint)
-						} else {
-							out = append(out, "?json:"+string(raw))
-						}
-					}
-					for cn := range m {
-						known := false
-						for _, c := range cols {
-							if c == cn {
-								known = true
+					var it []string
+					seen := map[string]bool{}
+					if pe != nil {
+						for k, cn := range pe.ColumnNames {
+							raw, ok := m[cn]
+							if !ok {
+								continue
 							}
-						}
-						if !known {
-							out = append(out, "?extra:"+cn)
+							seen[cn] = true
+							tok := "?json:" + string(raw)
+							if prow != nil && k < len(prow.Values) {
+								if hint := c27ProtoVal(prow.Values[k]); c27JSONIs(raw, hint) {
+									tok = c27Tok(hint)
+								}
+							}
+							it = append(it, coqPair(coqStr(cn), coqStr(tok)))
 						}
 					}
-					return out
+					for cn, raw := range m {
+						if !seen[cn] {
+							it = append(it, coqPair(coqStr(cn), coqStr("?extra:"+string(raw))))
+						}
+					}
+					return "(Some " + coqList(it) + ")"
 				}
+				var cb, ca string
 				if pe != nil {
-					e.Before = conv(je.Before, pe.OldRow)
-					e.After = conv(je.After, pe.NewRow)
+					e.PCols = pe.ColumnNames
 					e.ImgOld, e.HasOld = c27ProtoRow(pe.OldRow), pe.OldRow != nil
 					e.ImgNew, e.HasNew = c27ProtoRow(pe.NewRow), pe.NewRow != nil
+					cb, ca = pairs(je.Before, pe.OldRow), pairs(je.After, pe.NewRow)
+				} else {
+					cb, ca = pairs(je.Before, nil), pairs(je.After, nil)
 				}
-				keys := func(m map[string]json.RawMessage) []string {
-					if m == nil {
-						return nil
-					}
-					ks := make([]string, 0, len(m))
-					for k := range m {
-						ks = append(ks, k)
-					}
-					sort.Strings(ks)
-					return ks
-				}
-				e.JSONKeysBefore, e.JSONKeysAfter = keys(je.Before), keys(je.After)
-				rawRow := func(m map[string]json.RawMessage) []json.RawMessage {
-					if m == nil {
-						return nil
-					}
-					out := make([]json.RawMessage, 0, len(m))
-					for _, cn := range cols {
-						out = append(out, m[cn]) // nil when the column is missing
-					}
-					if len(m) != len(cols) {
-						out = append(out, json.RawMessage(`"?wrong-number-of-columns"`))
-					}
-					return out
-				}
-				e.RawBefore, e.RawAfter = rawRow(je.Before), rawRow(je.After)
 				grp = append(grp, e)
 				coq = append(coq, fmt.Sprintf("{| j_op := %s; j_table := %s; j_new := %s; j_old := %s; j_before := %s; j_after := %s; j_err := %s |}",
-					coqStr(e.Op), coqStr(e.Table), coqZ(e.New), coqZ(e.Old),
-					c27CoqOptPairs(cols, c27Toks(e.Before)), c27CoqOptPairs(cols, c27Toks(e.After)), coqStr(e.Err)))
+					coqStr(e.Op), coqStr(e.Table), coqZ(e.New), coqZ(e.Old), cb, ca, coqStr(e.Err)))
 			}
 			observed[len(observed)-1] = append(observed[len(observed)-1], grp)
 			obsCoq = append(obsCoq, coqList(coq))
 		}
 	}
 
-	// ---- oracle
-	ex, err := c27Shadow(in)
-	if err != nil {
-		w.Emit(VCase{Input: in, Key: key, Inconcl: "shadow: " + err.Error()})
-		return
-	}
 	fail, sig := "", ""
 	note := func(f, s string) {
 		if fail == "" {
@@ -669,7 +711,18 @@ func c27Run(w *vWriter, in c27Input) {
 	}
 	opsSeen := map[string]bool{}
 	nGroups := 0
+	// the window after a schema change: it ends with a read request or with the first commit that has a selected event
+	window := false
+	altered := map[string]bool{}
 	for ri, rx := range ex.reqs {
+		if in.Reqs[ri].Read {
+			window = false
+			continue
+		}
+		if t := in.Reqs[ri].DDL; t != "" {
+			window = true
+			altered[t] = true
+		}
 		// project the expectation through the settings
 		var want [][][]c27Ev
 		for _, g := range rx.groups {
@@ -678,7 +731,7 @@ func c27Run(w *vWriter, in c27Input) {
 			for _, st := range g {
 				var ps []c27Ev
 				for _, e := range st {
-					if re != nil && !re.MatchString(e.Table) {
+					if !selected(e.Table) {
 						continue
 					}
 					if in.IDsOnly {
@@ -700,29 +753,43 @@ func c27Run(w *vWriter, in c27Input) {
 		if ri < len(observed) {
 			got = observed[ri]
 		}
-		// a request in which a statement was undone: any difference in what it delivered is that defect
-		classify := func(s string) string {
-			if rx.undoneInTx {
-				return "C27:undone-statement-rows-reported-at-commit"
-			}
-			if rx.failedAuto && s != "C27:events-differ:wrong-values" {
-				return "C27:undone-statement-rows-leak-into-next-group"
-			}
-			return s
-		}
 		for gi := 0; gi < len(want) || gi < len(got); gi++ {
+			inWindow := window
+			if gi < len(want) {
+				window = false // this commit's column-name lookup makes the read connection see the new schema
+			}
+			classify := func(s string, table string) string {
+				if rx.undoneInTx {
+					return "C27:undone-statement-rows-reported-at-commit"
+				}
+				if rx.failedAuto && s != "C27:events-differ:wrong-values" && s != "C27:events-differ:json-columns" {
+					return "C27:undone-statement-rows-leak-into-next-group"
+				}
+				if s == "C27:events-differ:json-columns" || s == "C27:events-differ:event-error" || s == "C27:events-differ:wrong-json-values" {
+					if inWindow {
+						return "C27:stale-column-names-first-commit-after-schema-change"
+					}
+					if altered[table] {
+						return "C27:events-differ:json-columns:persistently-stale-after-schema-change"
+					}
+				}
+				if s == "C27:events-differ:wrong-json-values" {
+					return "C27:events-differ:wrong-values"
+				}
+				return s
+			}
 			if gi >= len(got) {
-				note(fmt.Sprintf("request %d: group %d missing: expected %v", ri, gi, want[gi]), classify("C27:events-differ:missing-group"))
+				note(fmt.Sprintf("request %d: group %d missing: expected %v", ri, gi, want[gi]), classify("C27:events-differ:missing-group", ""))
 				break
 			}
 			if gi >= len(want) {
-				note(fmt.Sprintf("request %d: extra group %d: %v", ri, gi, got[gi]), classify("C27:events-differ:extra-group"))
+				note(fmt.Sprintf("request %d: extra group %d: %v", ri, gi, got[gi]), classify("C27:events-differ:extra-group", ""))
 				break
 			}
 			pos := 0
 			for _, st := range want[gi] {
 				if pos+len(st) > len(got[gi]) {
-					note(fmt.Sprintf("request %d group %d: events missing; expected statement events %v, delivered group %v", ri, gi, st, got[gi]), classify("C27:events-differ:missing-event"))
+					note(fmt.Sprintf("request %d group %d: events missing; expected statement events %v, delivered group %v", ri, gi, st, got[gi]), classify("C27:events-differ:missing-event", ""))
 					break
 				}
 				seg := append([]c27Ev{}, got[gi][pos:pos+len(st)]...)
@@ -730,13 +797,13 @@ func c27Run(w *vWriter, in c27Input) {
 				for k := range st {
 					opsSeen[st[k].Op] = true
 					if f, s := c27Cmp(st[k], seg[k], in); f != "" {
-						note(fmt.Sprintf("request %d group %d: %s", ri, gi, f), classify(s))
+						note(fmt.Sprintf("request %d group %d: %s", ri, gi, f), classify(s, st[k].Table))
 					}
 				}
 				pos += len(st)
 			}
 			if fail == "" && pos < len(got[gi]) {
-				note(fmt.Sprintf("request %d group %d: %d event(s) more than the rows changed: %v", ri, gi, len(got[gi])-pos, got[gi][pos:]), classify("C27:events-differ:extra-event"))
+				note(fmt.Sprintf("request %d group %d: %d event(s) more than the rows changed: %v", ri, gi, len(got[gi])-pos, got[gi][pos:]), classify("C27:events-differ:extra-event", ""))
 			}
 			if fail != "" {
 				break
@@ -750,10 +817,10 @@ func c27Run(w *vWriter, in c27Input) {
 	for _, rg := range observed {
 		for _, g := range rg {
 			for _, e := range g {
-				if in.IDsOnly && (e.RawBefore != nil || e.RawAfter != nil) {
+				if in.IDsOnly && (e.JBefore != nil || e.JAfter != nil || e.HasOld || e.HasNew) {
 					note("row-ids-only, but values delivered: "+e.String(), "C27:values-in-ids-only-mode")
 				}
-				if re != nil && !re.MatchString(e.Table) {
+				if !selected(e.Table) {
 					note("table does not match the filter: "+e.String(), "C27:filtered-table-delivered")
 				}
 			}
@@ -783,12 +850,8 @@ func c27Run(w *vWriter, in c27Input) {
 			}
 			filt = "(Some " + coqStrList(m) + ")"
 		}
-		var env []string
-		for _, t := range c27Tables {
-			env = append(env, coqPair(coqStr(t), coqStrList(c27Cols[t])))
-		}
 		c.Coq = fmt.Sprintf("{| c_cfg := {| ids_only := %s; filt := %s |}; c_env := %s; c_trace := %s; c_impl := %s |}",
-			coqBool(in.IDsOnly), filt, coqList(env), coqList(trace), coqList(obsCoq))
+			coqBool(in.IDsOnly), filt, c27CoqEnv(c27Cols), coqList(trace), coqList(obsCoq))
 	}
 	multiReq := false
 	for _, r := range in.Reqs {
@@ -812,7 +875,7 @@ func c27Run(w *vWriter, in c27Input) {
 	if ex.failedAuto {
 		c.Tags = append(c.Tags, "autocommit-statement-failed")
 	}
-	if in.NoModel {
+	if nDDL > 0 {
 		c.Tags = append(c.Tags, "schema-change")
 	}
 	c.Tags = append(c.Tags, fmt.Sprintf("groups=%d", nGroups))
@@ -833,6 +896,18 @@ func c27SameValue(got, want any) bool {
 	return c27Tok(got) == c27Tok(want)
 }
 
+func c27Keys(m map[string]json.RawMessage) []string {
+	if m == nil {
+		return nil
+	}
+	ks := make([]string, 0, len(m))
+	for k := range m {
+		ks = append(ks, k)
+	}
+	sort.Strings(ks)
+	return ks
+}
+
 func c27Cmp(want, got c27Ev, in c27Input) (string, string) {
 	if want.Op != got.Op || want.Table != got.Table {
 		return fmt.Sprintf("expected %s, delivered %s", want, got), "C27:events-differ:wrong-op"
@@ -840,7 +915,7 @@ func c27Cmp(want, got c27Ev, in c27Input) (string, string) {
 	if want.Old != got.Old || want.New != got.New {
 		return fmt.Sprintf("expected %s, delivered %s", want, got), "C27:events-differ:wrong-ids"
 	}
-	cols := c27Cols[want.Table]
+	cols := want.Cols // the table's columns when the statement ran, from the shadow database
 	// 1. the row images of the event as the streamer delivered it: present exactly when the shadow has an image,
 	//    exactly one value per column of THIS table, each equal to the shadow row's value
 	img := func(which string, has bool, g []any, w []any) (string, string) {
@@ -873,37 +948,37 @@ func c27Cmp(want, got c27Ev, in c27Input) (string, string) {
 	}
 	// 2. the marshalled event: no error, before/after maps present with exactly this table's column names
 	if got.Err != "" {
-		// (the tables of a generated program never change, so this is not the stale-schema finding)
-		return fmt.Sprintf("marshalled event carries an error: %s (expected %s)", got, want), "C27:events-differ:event-error"
+		return fmt.Sprintf("marshalled event carries an error: %s (expected %s, columns %v)", got, want, cols), "C27:events-differ:event-error"
 	}
 	sortedCols := append([]string{}, cols...)
 	sort.Strings(sortedCols)
-	keysOK := func(w []any, ks []string) bool {
+	keysOK := func(w []any, m map[string]json.RawMessage) bool {
 		if w == nil {
-			return ks == nil
+			return m == nil
 		}
-		return reflect.DeepEqual(ks, sortedCols)
+		return m != nil && reflect.DeepEqual(c27Keys(m), sortedCols)
 	}
-	if !keysOK(want.Before, got.JSONKeysBefore) || !keysOK(want.After, got.JSONKeysAfter) {
-		if in.IDsOnly && (got.JSONKeysBefore != nil || got.JSONKeysAfter != nil) {
+	if !keysOK(want.Before, got.JBefore) || !keysOK(want.After, got.JAfter) {
+		if in.IDsOnly && (got.JBefore != nil || got.JAfter != nil) {
 			return "row-ids-only, but values delivered: " + got.String(), "C27:values-in-ids-only-mode"
 		}
-		return fmt.Sprintf("JSON before keys %v / after keys %v, the table's columns are %v (expected %s)", got.JSONKeysBefore, got.JSONKeysAfter, cols, want), "C27:events-differ:json-columns"
+		return fmt.Sprintf("%s event on %s: JSON before keys %v / after keys %v, the table's columns are %v",
+			got.Op, got.Table, c27Keys(got.JBefore), c27Keys(got.JAfter), cols), "C27:events-differ:json-columns"
 	}
-	// 3. the JSON values
-	same := func(w []any, raw []json.RawMessage) bool {
-		if (w == nil) != (raw == nil) || len(w) != len(raw) {
-			return false
-		}
+	// 3. the JSON values, column by column
+	same := func(w []any, m map[string]json.RawMessage) string {
 		for i := range w {
-			if raw[i] == nil || !c27JSONIs(raw[i], w[i]) {
-				return false
+			if raw := m[cols[i]]; raw == nil || !c27JSONIs(raw, w[i]) {
+				return fmt.Sprintf("column %s is %s in the JSON, the shadow row has %s", cols[i], string(m[cols[i]]), c27Tok(w[i]))
 			}
 		}
-		return true
+		return ""
 	}
-	if !same(want.Before, got.RawBefore) || !same(want.After, got.RawAfter) {
-		return fmt.Sprintf("expected %s, delivered %s (JSON before=%s after=%s)", want, got, got.RawBefore, got.RawAfter), "C27:events-differ:wrong-values"
+	if d := same(want.Before, got.JBefore); d != "" {
+		return fmt.Sprintf("%s event on %s, before: %s", got.Op, got.Table, d), "C27:events-differ:wrong-json-values"
+	}
+	if d := same(want.After, got.JAfter); d != "" {
+		return fmt.Sprintf("%s event on %s, after: %s", got.Op, got.Table, d), "C27:events-differ:wrong-json-values"
 	}
 	return "", ""
 }
@@ -931,6 +1006,7 @@ func c27RegisterRollback(d *DB, st *CDCStreamer, rec func()) {
 type c27Gen struct {
 	rng  *rand.Rand
 	uctr int
+	tbl  map[string]*c27TblModel
 }
 
 func (g *c27Gen) pick(ss ...string) string { return ss[g.rng.Intn(len(ss))] }
@@ -1089,7 +1165,132 @@ func c27GenInput(rng *rand.Rand) c27Input {
 	for i, n := 0, 2+rng.Intn(5); i < n; i++ {
 		in.Reqs = append(in.Reqs, g.req())
 	}
+	if rng.Intn(3) == 0 {
+		// schema changes: each followed by at least three committed writes to the changed table in separate requests,
+		// with or without reads (on the pooled read-only connection) in between
+		for k, n := 0, 1+rng.Intn(2); k < n; k++ {
+			g.schemaBlock(&in)
+			for i, m := 0, rng.Intn(3); i < m; i++ {
+				in.Reqs = append(in.Reqs, g.req())
+			}
+		}
+	}
 	return in
+}
+
+// the generator's picture of the tables whose schema it changes (the others keep their columns)
+type c27TblModel struct {
+	cols   []string
+	firstK bool // first column is an INTEGER PRIMARY KEY (give NULL for it)
+}
+
+func (g *c27Gen) model(t string) *c27TblModel {
+	if g.tbl == nil {
+		g.tbl = map[string]*c27TblModel{
+			"logs":    {cols: []string{"msg", "lvl"}},
+			"aux_tbl": {cols: []string{"k", "v"}, firstK: true},
+			"big_tbl": {cols: []string{"a", "b", "c"}},
+		}
+	}
+	return g.tbl[t]
+}
+
+// a write that certainly commits a change to table t, whatever its current columns are called
+func (g *c27Gen) writeTo(t string, insert bool) c27Stmt {
+	m := g.model(t)
+	g.uctr++
+	x := g.rng.Intn(4)
+	if insert {
+		x = 0
+	}
+	switch x {
+	case 0, 1:
+		vals := make([]string, len(m.cols))
+		for i := range vals {
+			vals[i] = g.pick(fmt.Sprintf("'w%d_%d'", g.uctr, i), strconv.Itoa(g.uctr*10+i), "2.5", "x'beef'")
+		}
+		if m.firstK {
+			vals[0] = "NULL"
+		} else {
+			vals[0] = fmt.Sprintf("'w%d'", g.uctr)
+		}
+		return c27Stmt{SQL: fmt.Sprintf("INSERT INTO %s VALUES (%s)", t, strings.Join(vals, ",")), Kind: "insert"}
+	case 2:
+		return c27Stmt{SQL: fmt.Sprintf("UPDATE %s SET \"%s\" = 'w%d' WHERE rowid = (SELECT max(rowid) FROM %s)", t, m.cols[len(m.cols)-1], g.uctr, t), Kind: "update"}
+	}
+	// keep the table from running empty: insert then delete the oldest row in one transaction request is overkill; delete only when there are rows
+	return c27Stmt{SQL: fmt.Sprintf("INSERT INTO %s SELECT * FROM (SELECT %s) WHERE 1", t, g.rowLiteral(m)), Kind: "insert"}
+}
+
+func (g *c27Gen) rowLiteral(m *c27TblModel) string {
+	vals := make([]string, len(m.cols))
+	for i := range vals {
+		vals[i] = fmt.Sprintf("'s%d_%d'", g.uctr, i)
+	}
+	if m.firstK {
+		vals[0] = "NULL"
+	}
+	return strings.Join(vals, ",")
+}
+
+func (g *c27Gen) schemaBlock(in *c27Input) {
+	t := g.pick("logs", "aux_tbl", "big_tbl")
+	m := g.model(t)
+	g.uctr++
+	n := g.uctr
+	last := len(m.cols) - 1
+	var stmts []c27Stmt
+	ddl := func(q string) { stmts = append(stmts, c27Stmt{SQL: q, Kind: "ddl"}) }
+	// something must have been delivered for the table before, so that the read connection (and any cache) knows the old schema
+	in.Reqs = append(in.Reqs, c27Req{Stmts: []c27Stmt{g.writeTo(t, true)}})
+	switch g.rng.Intn(6) {
+	case 0, 1: // same width: rename a column
+		i := g.rng.Intn(len(m.cols))
+		if m.firstK && i == 0 && g.rng.Intn(2) == 0 {
+			i = last
+		}
+		nn := fmt.Sprintf("%s_r%d", m.cols[i], n)
+		ddl(fmt.Sprintf("ALTER TABLE %s RENAME COLUMN \"%s\" TO \"%s\"", t, m.cols[i], nn))
+		m.cols[i] = nn
+	case 2: // same width: drop the last column, add another
+		nn := fmt.Sprintf("n%d", n)
+		ddl(fmt.Sprintf("ALTER TABLE %s DROP COLUMN \"%s\"", t, m.cols[last]))
+		ddl(fmt.Sprintf("ALTER TABLE %s ADD COLUMN \"%s\"", t, nn))
+		m.cols[last] = nn
+	case 3: // same width: drop the table, create it again with the columns renamed and in another order
+		cols := make([]string, len(m.cols))
+		for i := range cols {
+			cols[i] = fmt.Sprintf("%s_v%d", m.cols[len(m.cols)-1-i], n)
+		}
+		ddl("DROP TABLE " + t)
+		ddl(fmt.Sprintf("CREATE TABLE %s (\"%s\")", t, strings.Join(cols, "\", \"")))
+		m.cols, m.firstK = cols, false
+	case 4: // wider
+		nn := fmt.Sprintf("x%d", n)
+		ddl(fmt.Sprintf("ALTER TABLE %s ADD COLUMN \"%s\"", t, nn))
+		m.cols = append(m.cols, nn)
+	default: // narrower (or recreate wider when there is nothing to drop)
+		if len(m.cols) > 2 {
+			ddl(fmt.Sprintf("ALTER TABLE %s DROP COLUMN \"%s\"", t, m.cols[last]))
+			m.cols = m.cols[:last]
+		} else {
+			cols := []string{fmt.Sprintf("p%d", n), fmt.Sprintf("q%d", n), fmt.Sprintf("r%d", n)}
+			ddl("DROP TABLE " + t)
+			ddl(fmt.Sprintf("CREATE TABLE %s (\"%s\")", t, strings.Join(cols, "\", \"")))
+			m.cols, m.firstK = cols, false
+		}
+	}
+	in.Reqs = append(in.Reqs, c27Req{Stmts: stmts, DDL: t})
+	read := c27Req{Read: true}
+	if g.rng.Intn(2) == 0 {
+		in.Reqs = append(in.Reqs, read)
+	}
+	for i, k := 0, 3+g.rng.Intn(2); i < k; i++ {
+		in.Reqs = append(in.Reqs, c27Req{Stmts: []c27Stmt{g.writeTo(t, i == 0)}})
+		if g.rng.Intn(2) == 0 {
+			in.Reqs = append(in.Reqs, read)
+		}
+	}
 }
 
 func c27Corpus() []c27Input {
@@ -1143,6 +1344,43 @@ func c27Corpus() []c27Input {
 		{Filter: "^(items|logs)$", Reqs: []c27Req{seed, {Tx: true, Stmts: []c27Stmt{
 			s("update", "UPDATE items SET note = 'w' WHERE id = 1"),
 			s("insert", "INSERT INTO logs(msg,lvl) VALUES ('narrow after wide',1)")}}}},
+		// schema changes: same width (rename; drop+add; drop table+create reordered) and other width, three commits after each
+		{Reqs: []c27Req{seed,
+			{Stmts: []c27Stmt{s("insert", "INSERT INTO logs VALUES ('before',0)")}},
+			{DDL: "logs", Stmts: []c27Stmt{s("ddl", "ALTER TABLE logs RENAME COLUMN lvl TO level")}},
+			{Stmts: []c27Stmt{s("insert", "INSERT INTO logs VALUES ('first after rename',1)")}},
+			{Stmts: []c27Stmt{s("insert", "INSERT INTO logs VALUES ('second after rename',2)")}},
+			{Stmts: []c27Stmt{s("update", "UPDATE logs SET level = 9 WHERE rowid = 1")}},
+			{Stmts: []c27Stmt{s("delete", "DELETE FROM logs WHERE rowid = 1")}}}},
+		{Reqs: []c27Req{seed,
+			{Stmts: []c27Stmt{s("insert", "INSERT INTO logs VALUES ('before',0)")}},
+			{DDL: "logs", Stmts: []c27Stmt{s("ddl", "ALTER TABLE logs RENAME COLUMN lvl TO level")}},
+			{Read: true},
+			{Stmts: []c27Stmt{s("insert", "INSERT INTO logs VALUES ('first after rename and read',1)")}},
+			{Read: true},
+			{Stmts: []c27Stmt{s("insert", "INSERT INTO logs VALUES ('second',2)")}},
+			{Stmts: []c27Stmt{s("update", "UPDATE logs SET level = 9 WHERE rowid = 1")}}}},
+		{Filter: "tbl", Reqs: []c27Req{seed,
+			{Stmts: []c27Stmt{s("insert", "INSERT INTO big_tbl VALUES (1,2,3)")}},
+			{DDL: "big_tbl", Stmts: []c27Stmt{s("ddl", "ALTER TABLE big_tbl DROP COLUMN c"), s("ddl", "ALTER TABLE big_tbl ADD COLUMN d")}},
+			{Read: true},
+			{Stmts: []c27Stmt{s("insert", "INSERT INTO big_tbl VALUES (4,5,6)")}},
+			{Stmts: []c27Stmt{s("insert", "INSERT INTO big_tbl VALUES (7,8,9)")}},
+			{Stmts: []c27Stmt{s("update", "UPDATE big_tbl SET d = 'u' WHERE rowid = 1")}}}},
+		{Reqs: []c27Req{seed,
+			{Stmts: []c27Stmt{s("insert", "INSERT INTO aux_tbl VALUES (5,'before')")}},
+			{DDL: "aux_tbl", Stmts: []c27Stmt{s("ddl", "DROP TABLE aux_tbl"), s("ddl", "CREATE TABLE aux_tbl (v2, k2)")}},
+			{Read: true},
+			{Stmts: []c27Stmt{s("insert", "INSERT INTO aux_tbl VALUES ('value first','key second')")}},
+			{Read: true},
+			{Stmts: []c27Stmt{s("insert", "INSERT INTO aux_tbl VALUES ('v','k')")}},
+			{Stmts: []c27Stmt{s("delete", "DELETE FROM aux_tbl WHERE rowid = 1")}}}},
+		{Reqs: []c27Req{seed,
+			{Stmts: []c27Stmt{s("insert", "INSERT INTO logs VALUES ('before',0)")}},
+			{DDL: "logs", Stmts: []c27Stmt{s("ddl", "ALTER TABLE logs ADD COLUMN extra")}},
+			{Stmts: []c27Stmt{s("insert", "INSERT INTO logs VALUES ('first after add column',1,'e')")}},
+			{Stmts: []c27Stmt{s("insert", "INSERT INTO logs VALUES ('second',2,'e')")}},
+			{Stmts: []c27Stmt{s("update", "UPDATE logs SET extra = 'u' WHERE rowid <= 2")}}}},
 		{IDsOnly: true, Reqs: []c27Req{seed, {Stmts: []c27Stmt{
 			s("update", "UPDATE items SET note = 'u1', qty = qty + 1 WHERE id BETWEEN 1 AND 2"),
 			s("delete", "DELETE FROM items WHERE id = 1")}}}},
@@ -1160,6 +1398,7 @@ type c27ProbeInput struct {
 	Probe string `json:"probe"`
 }
 
+// c27Probe: a table created in the transaction that commits (its column names cannot be looked up yet)
 func c27Probe(w *vWriter, which string) {
 	A, err := c27Open()
 	if err != nil {
@@ -1170,20 +1409,7 @@ func c27Probe(w *vWriter, which string) {
 	A.db.RegisterPreUpdateHook(A.st.PreupdateHook, nil, false)
 	A.db.RegisterCommitHook(A.st.CommitHook)
 	c27RegisterRollback(A.db, A.st, nil)
-	var r c27Req
-	wantKeys := 0
-	switch which {
-	case "create-table-and-insert-in-one-transaction":
-		r = c27Req{Tx: true, Stmts: []c27Stmt{{SQL: "CREATE TABLE fresh (k INTEGER PRIMARY KEY, v)"}, {SQL: "INSERT INTO fresh VALUES (1,'x')"}}}
-		wantKeys = 2
-	case "insert-after-add-column":
-		// a first event makes the read connection load the schema; then the schema changes
-		A.exec(c27Req{Stmts: []c27Stmt{{SQL: "INSERT INTO logs(msg,lvl) VALUES ('before',0)"}}}, 4)
-		A.exec(c27Req{Stmts: []c27Stmt{{SQL: "ALTER TABLE logs ADD COLUMN extra"}}}, 5)
-		A.drain()
-		r = c27Req{Stmts: []c27Stmt{{SQL: "INSERT INTO logs(msg,lvl,extra) VALUES ('m',1,'e')"}}}
-		wantKeys = 3
-	}
+	r := c27Req{Tx: true, Stmts: []c27Stmt{{SQL: "CREATE TABLE fresh (k INTEGER PRIMARY KEY, v)"}, {SQL: "INSERT INTO fresh VALUES (1,'x')"}}}
 	A.exec(r, 6)
 	c := VCase{Input: c27ProbeInput{which}, Key: "probe:" + which, Tags: []string{"schema-change-probe"}}
 	gs := A.drain()
@@ -1197,12 +1423,10 @@ func c27Probe(w *vWriter, which string) {
 	json.Unmarshal(b, &env)
 	if len(env.Payload) == 1 && len(env.Payload[0].Events) == 1 {
 		je := env.Payload[0].Events[0]
-		if je.Err != "" || len(je.After) != wantKeys {
+		if je.Err != "" || len(je.After) != 2 {
 			c.OracleFail = "event does not carry the inserted row: " + string(b)
 			c.Sig = "C27:events-differ:event-error"
-			if which == "insert-after-add-column" {
-				c.Sig = "C27:stale-column-names-after-schema-change"
-			} else if strings.Contains(je.Err, "failed to get column names") {
+			if strings.Contains(je.Err, "failed to get column names") {
 				c.Sig = "C27:no-column-names-for-table-created-in-same-transaction"
 			}
 		}
@@ -1233,7 +1457,6 @@ func TestVerif_C27(t *testing.T) {
 		c27Run(w, in)
 	}
 	c27Probe(w, "create-table-and-insert-in-one-transaction")
-	c27Probe(w, "insert-after-add-column")
 	n := vN(300, 5000)
 	for i := 0; i < n; i++ {
 		c27Run(w, c27GenInput(rng))
